@@ -55,12 +55,40 @@ class BuildResult:
         self.ok, self.log, self.failed_file, self.stage = ok, log, failed_file, stage
 
 
+# Which properties are tied to the code THROUGH which translator target (DESIGN.md section 4).  A target that no longer
+# translates breaks the tie of exactly these properties; for every other property the development is built with the
+# recorded reference tables of that target (translator/reference/), which its theorems do not speak about.
+#   TextTables  : actions.py, DiffFormatter, DiffParser            (text script format)
+#   PatcherProg : Patcher._handle_* as DSL programs, Patcher.patch / nsmap / handle_action pinned
+#   xl_main     : main.py entirely, formatter constructors / WS_* flags  (Gen/Flags, CliPlumbing, EntryPoints)
+#   xl_state    : state handling of Differ (clear, set_trees, match prologue, diff guard, set loops), Patcher.patch,
+#                 the formatters' format() and main.diff_trees / patch_tree   (Gen/StateShape)
+TIED_THROUGH = {
+    "TextTables": {"C02", "C15"},
+    "PatcherProg": {"C01", "C02", "C04", "C05", "C06", "C18"},
+    "xl_main": {"C02", "C13", "C14", "C15"},
+    "xl_state": {"C01", "C03", "C05", "C06", "C07", "C13", "C17"},
+}
+LAST_TRANSLATION = {"failed": {}}
+
+
 def regenerate():
-    """Run the translator: /repo sources -> coq/theories/Gen/*.v (fail closed)."""
+    """Run the translator: /repo sources -> coq/theories/Gen/*.v (fail closed, per target).
+    Returns (usable, log): usable = every generated file exists (translated now, or the recorded reference of a target
+    that failed); the failed targets are left in LAST_TRANSLATION["failed"] (name -> message)."""
     tr = os.path.join(VERIF, "translator", "xlate.py")
+    LAST_TRANSLATION["failed"] = {}
     if not os.path.exists(tr):
         return True, ""
-    rc, out = sh([sys.executable, tr, REPO, os.path.join(COQ, "theories", "Gen")], timeout=120)
+    gen = os.path.join(COQ, "theories", "Gen")
+    rc, out = sh([sys.executable, tr, REPO, gen], timeout=120)
+    if rc == 3:
+        try:
+            st = json.load(open(os.path.join(gen, "status.json")))
+            LAST_TRANSLATION["failed"] = {k: v for k, v in st.items() if v != "ok"}
+        except Exception:  # noqa
+            return False, out
+        return True, out
     return rc == 0, out
 
 
@@ -87,7 +115,10 @@ def build(targets=None, timeout=1500):
         if rc:
             m = re.findall(r'File "\./?([^"]+\.v)"', o)
             return BuildResult(False, o[-6000:], m[-1] if m else None, "make")
-        return BuildResult(True, o[-2000:])
+        r = BuildResult(True, o[-2000:])
+        r.failed_targets = dict(LAST_TRANSLATION["failed"])
+        r.translator_log = out
+        return r
     finally:
         fcntl.flock(lock, fcntl.LOCK_UN)
         lock.close()
@@ -327,6 +358,16 @@ def proof_stage(run, pid, extra_targets=()):
     info = {"build_ok": b.ok}
     if not b.ok:
         info.update({"failed": b.failed_file, "stage": b.stage, "log": b.log[-3000:]})
+        return False, info
+    ft = getattr(b, "failed_targets", {})
+    if ft:
+        run.notes.append("translator targets that no longer translate (recorded reference tables used instead): %s" % ft)
+    mine = {t: m for t, m in ft.items() if pid in TIED_THROUGH.get(t, set())}
+    if mine:
+        # the development builds (reference tables), so the correspondence and the oracles still run; the tie of THIS
+        # property is broken because the code it is tied through is no longer what the generated tables say
+        info.update({"failed": "translator target " + ", ".join(sorted(mine)), "stage": "translate",
+                     "log": "\n".join("%s: %s" % i for i in sorted(mine.items()))})
         return False, info
     hits = grep_forbidden()
     if hits:
